@@ -102,20 +102,20 @@ class ParCons(RankAggAlgorithm, PairwiseBasedAlgorithm):
             # then we have no trivial optimal solution. According to the size of the sub-problem, use of
             # the exact algorithm or a heuristics
             else:
-                # creation of a new Dataset representing the sub-problem. The rankings that rank no element of the
-                # sub-problem are kept (as empty rankings): they count in the cost of the pairs of the sub-problem
-                sub_problem = dataset.sub_problem_from_elements(set_current_elements, keep_empty_rankings=True)
-                # the elements of the sub-problem may have another type than in the dataset (names that are all
-                # integer-like become int in the sub-problem): the consensus of the sub-problem is written back with
-                # the elements of the dataset
-                elements_by_name = {str(element): element for element in set_current_elements}
-                # a name such as "007" is read back as 7 from a sub-problem of int elements
-                elements_by_name.update({str(int(name)): element for name, element in list(elements_by_name.items())
-                                         if name.isdecimal() and str(int(name)) not in elements_by_name})
+                # creation of a new Dataset representing the sub-problem. Its elements are the int ids of the elements
+                # of the component, not their names: a Dataset normalises the names it receives (names that are all
+                # integer-like become int, and "007" and "7" would then be the same element), whereas the ids are
+                # always distinct ints. The rankings that rank no element of the sub-problem are kept (as empty
+                # rankings): they count in the cost of the pairs of the sub-problem
+                ids_elements = dataset.mapping_elem_id
+                sub_problem = Dataset([Ranking([{Element(ids_elements[element])
+                                                 for element in bucket.intersection(set_current_elements)}
+                                                for bucket in ranking if bucket.intersection(set_current_elements)])
+                                       for ranking in dataset.rankings])
                 if len(scc_i) > self._bound_for_exact:
                     cons_ext = self._auxiliary_alg.compute_consensus_rankings(
                         sub_problem, scoring_scheme, True).consensus_rankings[0]
-                    res.extend({elements_by_name[str(element)] for element in bucket} for bucket in cons_ext)
+                    res.extend({dataset.mapping_id_elem[element.value] for element in bucket} for bucket in cons_ext)
                     optimal = False
                 else:
                     # the free solver is used if cplex is not installed
@@ -125,7 +125,7 @@ class ParCons(RankAggAlgorithm, PairwiseBasedAlgorithm):
                         exact_alg = ExactAlgorithmCplexForPaperOptim1()
                     cons_ext = exact_alg.compute_consensus_rankings(
                         sub_problem, scoring_scheme, True).consensus_rankings[0]
-                    res.extend({elements_by_name[str(element)] for element in bucket} for bucket in cons_ext)
+                    res.extend({dataset.mapping_id_elem[element.value] for element in bucket} for bucket in cons_ext)
 
         hash_information = {
             ConsensusFeature.ASSOCIATED_ALGORITHM: self.get_full_name(),
